@@ -1,5 +1,5 @@
 import MxModel.Proofs.BackupGen
-import MxModel.Proofs.IOSession
+import MxModel.Proofs.IOSessionInv
 import MxModel.Proofs.BackupSeq
 import MxModel.Proofs.BackupSession
 import MxModel.Proofs.BackupPolicy
@@ -567,13 +567,13 @@ registered when the load began are removed - BY IDENTITY. -/
 began (`snapshot`), none of whose specs the load read and none of whose values the half-read model references
 (the values of a load are new objects), is in the registry afterwards as it was - identity, key, all specs;
 whatever its group: another model's, or the session-wide group of absolute paths. -/
-theorem failed_load_cleanup_leaves_others (st : IOSession.St) (m : Nat) (snapshot read : List Nat)
-    (hdet : IOSession.SidDet st) (io : IOSession.Io) (hio : io ∈ st.ios)
+theorem failed_load_cleanup_leaves_others (ops : List IOSession.Op) (m : Nat) (snapshot read : List Nat)
+    (io : IOSession.Io) (hio : io ∈ (IOSession.run {} ops).ios)
     (hsnap : snapshot.contains io.iid = true)
     (hread : ∀ s ∈ io.specs, read.contains s.sid = false)
-    (hval : ∀ s ∈ io.specs, IOSession.boundIn st.refs m s.val = false) :
-    io ∈ (IOSession.cleanup st m snapshot read).ios :=
-  IOSession.cleanup_keeps st m snapshot read hdet io hio hsnap hread hval
+    (hval : ∀ s ∈ io.specs, IOSession.boundIn (IOSession.run {} ops).refs m s.val = false) :
+    io ∈ (IOSession.cleanup (IOSession.run {} ops) m snapshot read).ios :=
+  IOSession.cleanup_keeps _ m snapshot read (IOSession.reachable_inv ops).det io hio hsnap hread hval
 
 /-- **…and removes what the load created**: every file object left was registered when the load began and holds
 none of the specs the load read. -/
